@@ -14,6 +14,7 @@ PID = 'C19'
 ISOLATE = True
 RUNS = {'quick': 6000, 'thorough': 120000}
 STEP_KEYS = ['steps']
+BATCH = 1           # runs per forked process (see core.execute_seq)
 COMPONENTS = {
     'real': ['add/remove/reset_plugin(s)', 'add/remove/reset_signature_extension(s)',
              'add/remove_contract', 'add/remove_contract_interface', 'add_alias',
